@@ -1,6 +1,6 @@
 (* C07 — Inbound QoS2 is delivered exactly once per exchange.  Statements only; proofs in
-   Conn/Session.v.  Nothing else may be added to this file. *)
-From MQ Require Import Base.Prelude Alloc.Alloc Alloc.AllocProofs Conn.Types Conn.ConnRecord Conn.Step Corr.ConnTrace Conn.Session.
+   Conn/Session.v, Conn/Qos2Inv.v and Conn/Qos2Inv2.v.  Nothing else may be added to this file. *)
+From MQ Require Import Base.Prelude Alloc.Alloc Alloc.AllocProofs Conn.Types Conn.ConnRecord Conn.Step Corr.ConnTrace Conn.Run Conn.Session Conn.Qos2Inv Conn.Qos2Inv2.
 
 (* v3.1.1, every state: a retransmission of a QoS 2 PUBLISH whose identifier is in the handled
    set is not notified again, and the identifier stays handled *)
@@ -34,10 +34,39 @@ Theorem C07_send_ack_quiet : forall c p,
 Proof. exact send_ack_quiet. Qed.
 Print Assumptions C07_send_ack_quiet.
 
-(* C07_partial: the history statement (at most one notification between PUBRELs, none swallowed,
-   across reconnects and export/restore, v5.0 included) is decided by the monitor mon_c07 — a
-   ghost set of notified-and-unreleased identifiers built from the implementation's events — and
-   by the correspondence; the per-step facts above are the theorems. *)
+(* every call of the API, every state: a call that is not a release point for x (PUBREL received
+   for x, error PUBREC sent for x, clean-start CONNECT sent or received, CONNACK without Session
+   Present received, a close that does not keep the session, restore) keeps x in the handled set.
+   [op_oracle_ok]: the parser verdict handed to the model is for the frame the bytes complete. *)
+Theorem C07_step_keeps_handled : forall x g c o,
+  op_oracle_ok c o -> releases x c o = false -> mem x (c_qos2 c) = true ->
+  match step g c o with Ok (c', _, _) => mem x (c_qos2 c') = true | Panic _ => True end.
+Proof. exact step_keeps_handled. Qed.
+Print Assumptions C07_step_keeps_handled.
+
+(* every history without a release point for x, of any length, both versions, across persistent
+   closes and reconnects that keep the session *)
+Theorem C07_handled_until_released : forall x g ops c,
+  mem x (c_qos2 c) = true -> quiet_history x g c ops ->
+  match run_state g c ops with Some c' => mem x (c_qos2 c') = true | None => True end.
+Proof. exact handled_until_released. Qed.
+Print Assumptions C07_handled_until_released.
+
+(* ... so a v3.1.1 retransmission after any such history is still not notified *)
+Theorem C07_dup_after_history_not_notified_v311 : forall x g ops c c' p,
+  mem x (c_qos2 c) = true -> quiet_history x g c ops -> run_state g c ops = Some c' ->
+  k_qos p = 2 -> k_pid p = x ->
+  match recv_publish_v311 g c' (PROk p) with
+  | Ok (c'', e) => notifies e = [] /\ mem x (c_qos2 c'') = true
+  | Panic _ => True
+  end.
+Proof. exact dup_after_history_not_notified_v311. Qed.
+Print Assumptions C07_dup_after_history_not_notified_v311.
+
+(* C07_partial: what is still decided by the monitor mon_c07 (a ghost set of notified-and-unreleased
+   identifiers built from the implementation's events) and the correspondence rather than a theorem:
+   "none swallowed" (a first PUBLISH is notified) over histories, and the v5.0 duplicate path, whose
+   per-step facts are in Conn/Session.v. *)
 
 Example C07_nonvacuous :
   let g := mkCfg RServer 65535 2 in
@@ -48,3 +77,13 @@ Example C07_nonvacuous :
   | Panic _ => False
   end.
 Proof. vm_compute. repeat split; try reflexivity; discriminate. Qed.
+
+(* the history theorem's premises are satisfiable: a handled identifier, a history with a
+   persistent close in it, no release point *)
+Example C07_history_nonvacuous :
+  let g := mkCfg RServer 65535 2 in
+  let c := set_need_store (set_qos2 (set_status (conn_new g V311) Connected) [7]) true in
+  let ops := [OAcquire; OSetAutoPub true; OTimer TPingreqSend; OClosed; ORelease 1] in
+  mem 7 (c_qos2 c) = true /\ quiet_history 7 g c ops /\
+  match run_state g c ops with Some c' => c_status c' = Disconnected | None => False end.
+Proof. vm_compute. repeat split; reflexivity. Qed.
